@@ -170,6 +170,22 @@ def evaluate(cls, key, d, fr, model, corr, only=None):
         req.append("status %s %s" % (key, otok)); impl.append(a); meta.append((otok, "status"))
         if cat == "bitmap":
             sreq.append("spec status %s %s %s" % (key, otok, a)); smeta.append((otok, "status", a))
+        # what an accessor hands out belongs to the caller: a caller that edits a status list in place must not
+        # change what this response, or a fresh response built from an equal frame, says afterwards
+        try:
+            lst = r.status
+            if isinstance(lst, list):
+                lst.append("edited by the caller")
+                lst.reverse()
+                same = observe(lambda: r.status, fr)
+                fresh = observe(lambda: cls(copy_frame(fval, fr)).status, fr)
+                for what, got in (("same response", same), ("fresh response from an equal frame", fresh)):
+                    if got != a:
+                        viol.append(("resp:%s:status-after-edit:%s" % (cls.__name__, okind(otok)),
+                                     {"class": key, "outcome": otok, "accessor": "status of the " + what +
+                                      " after a caller edited an earlier result in place"}, a, got))
+        except Exception:   # noqa - responses whose status raises were judged above
+            pass
         a = observe(lambda: r.error, fr)
         req.append("error %s %s" % (key, otok)); impl.append(a); meta.append((otok, "error"))
         for n in names:
@@ -283,6 +299,13 @@ def standard_checks(table, fr, model, corr):
                     break
         viol.append(("resp:%s:table" % cls.__name__, inp, a, have))
     return viol
+
+
+def copy_frame(f, fr):
+    """an equal but distinct backward frame (None stays None)"""
+    if f is None:
+        return None
+    return (fr.BackwardFrameError if getattr(f, "error", False) else fr.BackwardFrame)(f.as_integer)
 
 
 def correspond(ctx, corr):
